@@ -14,7 +14,7 @@ verus! {
 pub mod env {
     use vstd::prelude::*;
     use core::ops::ControlFlow;
-    use super::unit::{ProofKind, ProofSourceAmount};
+    use super::unit::{ProofKind, ProofSourceAmount, BucketSourceAmount};
 
     // ---- the id newtypes, verbatim from their crates
     /*@item radix-common/src/data/manifest/model/manifest_bucket.rs :: struct ManifestBucket
@@ -41,8 +41,13 @@ pub mod env {
     #[verifier::external_body] #[derive(Clone, Copy)] pub struct PackageAddress { x: u8 }
     #[verifier::external_body] #[derive(Clone, Copy)] pub struct GlobalAddress { x: u8 }
     #[verifier::external_body] #[derive(Clone, Copy)] pub struct InternalAddress { x: u8 }
-    #[verifier::external_body] #[derive(Clone, Copy)] pub struct ManifestGlobalAddress { x: u8 }
-    #[verifier::external_body] #[derive(Clone, Copy)] pub struct ManifestPackageAddress { x: u8 }
+    #[verifier::external_body] #[derive(Clone, Copy)] pub struct NodeId { x: u8 }
+    #[verifier::external_body] pub struct ManifestDecimal { x: u8 }
+    #[verifier::external_body] pub struct ManifestPreciseDecimal { x: u8 }
+    #[verifier::external_body] pub struct ManifestNonFungibleLocalId { x: u8 }
+    #[verifier::external_body] pub struct ContainerHeader { x: u8 }
+    #[verifier::external_body] pub struct TerminalValueBatchRef { x: u8 }
+    #[verifier::external_body] pub struct Location { x: u8 }
     #[verifier::external_body] #[derive(Clone, Copy)] pub struct ModuleId { x: u8 }
     #[verifier::external_body] #[derive(Clone, Copy)] pub struct Decimal { x: u8 }
     #[verifier::external_body] pub struct NonFungibleLocalId { x: u8 }
@@ -55,10 +60,72 @@ pub mod env {
     #[verifier::external_body] #[derive(Clone, Copy)] pub struct ManifestExpression { x: u8 }
     #[verifier::external_body] pub struct DecodeError { x: u8 }
 
-    /*@item radix-transactions/src/manifest/manifest_instruction_effects.rs :: enum InvocationKind
+    /*@item radix-common/src/data/manifest/model/manifest_address_kinds.rs :: enum ManifestGlobalAddress
     @derive Clone, Copy
     @*/
-    /*@item radix-transactions/src/manifest/manifest_instruction_effects.rs :: enum BucketSourceAmount
+    /*@item radix-common/src/data/manifest/model/manifest_address_kinds.rs :: enum ManifestPackageAddress
+    @derive Clone, Copy
+    @*/
+    /*@item radix-common/src/data/manifest/model/manifest_address.rs :: enum ManifestAddress
+    @derive Clone, Copy
+    @*/
+    /*@item radix-common/src/data/manifest/custom_value.rs :: enum ManifestCustomValue
+    @derive
+    @*/
+    /*@item radix-common/src/data/manifest/custom_traversal.rs :: struct ManifestCustomTerminalValueRef
+    @derive
+    @*/
+    /*@item radix-common/src/constants/sbor_payload.rs :: const MANIFEST_SBOR_V1_PAYLOAD_PREFIX
+    @*/
+    /*@item radix-common/src/constants/sbor_payload.rs :: const MANIFEST_SBOR_V1_MAX_DEPTH
+    @*/
+    /*@item sbor/src/traversal/untyped/traverser.rs :: struct VecTraverserConfig
+    @*/
+    // ---- sbor untyped traversal, instantiated for the manifest custom types (shapes of
+    // sbor/src/traversal/untyped/{events.rs, traverser.rs}; the traverser itself is an opaque event source)
+    pub mod traversal {
+        use super::ManifestCustomTerminalValueRef;
+        pub enum TerminalValueRef<'de> {
+            Bool(bool), I8(i8), I16(i16), I32(i32), I64(i64), I128(i128),
+            U8(u8), U16(u16), U32(u32), U64(u64), U128(u128),
+            String(&'de str),
+            Custom(ManifestCustomTerminalValueRef),
+        }
+    }
+    pub enum TraversalEvent<'de> {
+        ContainerStart(ContainerHeader),
+        ContainerEnd(ContainerHeader),
+        TerminalValue(traversal::TerminalValueRef<'de>),
+        TerminalValueBatch(TerminalValueBatchRef),
+        End,
+        DecodeError(DecodeError),
+    }
+    pub struct LocatedTraversalEvent<'de> {
+        pub location: Location,
+        pub event: TraversalEvent<'de>,
+    }
+    pub enum ExpectedStart { PayloadPrefix(u8), Value }
+    #[verifier::external_body]
+    pub struct ManifestTraverser<'de> { x: &'de u8 }
+    impl<'de> ManifestTraverser<'de> {
+        #[verifier::external_body]
+        pub fn new(input: &'de [u8], expected_start: ExpectedStart, config: VecTraverserConfig) -> Self { unimplemented!() }
+        /// any event may come next (the payload is not modelled)
+        #[verifier::external_body]
+        pub fn next_event(&mut self) -> LocatedTraversalEvent<'de> { unimplemented!() }
+    }
+    #[verifier::external_body]
+    pub fn manifest_encode(value: &ManifestValue) -> Result<Vec<u8>, EncodeError> { unimplemented!() }
+
+    // ---- predicates on payload values (resource-assertion checks; C37 covers their meaning)
+    impl Decimal { #[verifier::external_body] pub fn is_negative(&self) -> bool { unimplemented!() } }
+    impl ResourceAddress { #[verifier::external_body] pub fn is_fungible(&self) -> bool { unimplemented!() } }
+    impl ManifestResourceConstraints { #[verifier::external_body] pub fn is_valid(&self) -> bool { unimplemented!() } }
+    impl ManifestResourceConstraint {
+        #[verifier::external_body] pub fn is_valid_for(&self, resource_address: &ResourceAddress) -> bool { unimplemented!() }
+    }
+
+    /*@item radix-transactions/src/manifest/manifest_instruction_effects.rs :: enum InvocationKind
     @derive Clone, Copy
     @*/
     /*@item radix-transactions/src/manifest/manifest_instruction_effects.rs :: enum BucketDestination
@@ -140,6 +207,20 @@ pub mod env {
     @*/
     /*@item radix-transactions/src/manifest/static_manifest_interpreter.rs :: struct OnFinish
     @*/
+    /*@item radix-transactions/src/manifest/static_manifest_interpreter.rs :: struct OnStartInstruction
+    @*/
+    /*@item radix-transactions/src/manifest/static_manifest_interpreter.rs :: struct OnEndInstruction
+    @*/
+    /*@item radix-transactions/src/manifest/static_manifest_interpreter.rs :: struct OnDropAuthZoneProofs
+    @*/
+    /*@item radix-transactions/src/manifest/static_manifest_interpreter.rs :: struct OnPassExpression
+    @*/
+    /*@item radix-transactions/src/manifest/static_manifest_interpreter.rs :: struct OnPassBlob
+    @*/
+    /*@item radix-transactions/src/manifest/static_manifest_interpreter.rs :: struct OnResourceAssertion
+    @*/
+    /*@item radix-transactions/src/manifest/static_manifest_interpreter.rs :: struct OnVerification
+    @*/
 
     // ---- the object-name table of a manifest (manifest_naming.rs): pure look-ups, modelled as
     // uninterpreted functions of the table and the id
@@ -174,6 +255,18 @@ pub mod env {
         spec fn names(&self) -> ManifestObjectNamesRef<'_>;
         fn get_known_object_names_ref(&self) -> (r: ManifestObjectNamesRef<'_>)
             ensures r == self.names();
+        spec fn subintent(&self) -> bool;
+        fn is_subintent(&self) -> (r: bool)
+            ensures r == self.subintent();
+        fn get_child_subintent_hashes(&self) -> ChildSubintentHashes<'_>;
+        fn instruction_count(&self) -> usize;
+        fn instruction_effect(&self, index: usize) -> ManifestInstructionEffect<'_>;
+    }
+    /// `impl ExactSizeIterator<Item = &ChildSubintentSpecifier>`: only its length is used here
+    #[verifier::external_body]
+    pub struct ChildSubintentHashes<'a> { x: &'a u8 }
+    impl<'a> ChildSubintentHashes<'a> {
+        #[verifier::external_body] pub fn len(&self) -> usize { unimplemented!() }
     }
 
     /// static_manifest_interpreter.rs :: trait ManifestInterpretationVisitor. The visitor is NOT under
@@ -221,6 +314,15 @@ pub mod env {
         spec fn answer_finish(&self) -> ControlFlow<Self::Output>;
         fn on_finish(&mut self, details: OnFinish) -> (r: ControlFlow<Self::Output>)
             ensures r == old(self).answer_finish();
+
+        // events that do not concern the id lifecycle: any answer
+        fn on_start_instruction(&mut self, details: OnStartInstruction) -> ControlFlow<Self::Output>;
+        fn on_end_instruction(&mut self, details: OnEndInstruction) -> ControlFlow<Self::Output>;
+        fn on_drop_authzone_proofs(&mut self, details: OnDropAuthZoneProofs) -> ControlFlow<Self::Output>;
+        fn on_pass_expression(&mut self, details: OnPassExpression) -> ControlFlow<Self::Output>;
+        fn on_pass_blob(&mut self, details: OnPassBlob) -> ControlFlow<Self::Output>;
+        fn on_resource_assertion(&mut self, details: OnResourceAssertion) -> ControlFlow<Self::Output>;
+        fn on_verification(&mut self, details: OnVerification) -> ControlFlow<Self::Output>;
     }
 }
 
@@ -238,6 +340,9 @@ pub mod unit {
     @derive PartialEq, Eq
     @*/
     /*@item radix-transactions/src/manifest/manifest_instruction_effects.rs :: enum ProofSourceAmount
+    @derive Clone, Copy
+    @*/
+    /*@item radix-transactions/src/manifest/manifest_instruction_effects.rs :: enum BucketSourceAmount
     @derive Clone, Copy
     @*/
     /*@item radix-transactions/src/manifest/static_manifest_interpreter.rs :: struct ValidationRuleset
@@ -271,6 +376,16 @@ pub mod unit {
         /*@fn radix-transactions/src/manifest/manifest_instruction_effects.rs :: impl<'a> ProofSourceAmount<'a> :: fn proof_kind
         @sig
             ensures ret == self.kind(),
+        @*/
+    }
+
+    impl<'a> BucketSourceAmount<'a> {
+        /*@fn radix-transactions/src/manifest/manifest_instruction_effects.rs :: impl<'a> BucketSourceAmount<'a> :: fn resource_address
+        @sig
+            ensures
+                *self matches BucketSourceAmount::AllOnWorktop { resource_address } ==> ret == resource_address,
+                *self matches BucketSourceAmount::AmountFromWorktop { resource_address, .. } ==> ret == resource_address,
+                *self matches BucketSourceAmount::NonFungiblesFromWorktop { resource_address, .. } ==> ret == resource_address,
         @*/
     }
 
@@ -391,12 +506,23 @@ pub mod unit {
         }
 
         /// the parts of the state that no lifecycle operation touches
-        pub open spec fn same_config(&self, f: &Self) -> bool {
+        pub open spec fn same_settings(&self, f: &Self) -> bool {
             &&& self.validation_ruleset == f.validation_ruleset
             &&& self.manifest == f.manifest
-            &&& self.location == f.location
             &&& self.registered_blobs == f.registered_blobs
+        }
+        pub open spec fn same_config(&self, f: &Self) -> bool {
+            &&& self.same_settings(f)
+            &&& self.location == f.location
             &&& self.next_instruction_requirement == f.next_instruction_requirement
+        }
+        /// no id was created
+        pub open spec fn same_lengths(&self, f: &Self) -> bool {
+            &&& self.bucket_state@.len() == f.bucket_state@.len()
+            &&& self.proof_state@.len() == f.proof_state@.len()
+            &&& self.address_reservation_state@.len() == f.address_reservation_state@.len()
+            &&& self.named_address_state@.len() == f.named_address_state@.len()
+            &&& self.intent_state@.len() == f.intent_state@.len()
         }
         pub open spec fn same_buckets(&self, f: &Self) -> bool { self.bucket_state@ =~= f.bucket_state@ }
         pub open spec fn same_proofs(&self, f: &Self) -> bool { self.proof_state@ =~= f.proof_state@ }
@@ -504,6 +630,14 @@ pub mod unit {
         assert forall|x: ManifestAddressReservation| a.reservation_created(x) && !a.reservation_live(x) implies !c.reservation_live(x) by {
             assert(b.reservation_created(x) && !b.reservation_live(x));
         }
+    }
+
+    /// an operation that leaves all five tables as they are (same_state) keeps wf and no_resurrection
+    pub proof fn lemma_no_resurrection_frame<'a, M: ReadableManifest + ?Sized>(
+        a: &StaticManifestInterpreter<'a, M>, b: &StaticManifestInterpreter<'a, M>, c: &StaticManifestInterpreter<'a, M>)
+        requires a.no_resurrection(b), b.same_buckets(c), b.same_proofs(c), b.same_addresses(c),
+        ensures a.no_resurrection(c), b.wf() && b.validation_ruleset == c.validation_ruleset ==> c.wf(),
+    {
     }
 
     impl NextInstructionRequirement {
@@ -889,6 +1023,57 @@ pub mod unit {
                 old(self).no_resurrection(final(self)),
         @*/
 
+        // ---------------------------------------------------------------- instructions that USE ids
+        /*@fn radix-transactions/src/manifest/static_manifest_interpreter.rs :: impl<'a, M: ReadableManifest + ?Sized> StaticManifestInterpreter<'a, M> :: fn handle_resource_assertion
+        @sig
+            ensures
+                old(self).same_settings(final(self)), old(self).location == final(self).location,
+                old(self).same_buckets(final(self)), old(self).same_proofs(final(self)), old(self).same_addresses(final(self)),
+                // a bucket assertion is accepted only for a live bucket
+                ret is Continue && old(self).validation_ruleset.validate_resource_assertions ==>
+                    (assertion matches ResourceAssertion::Bucket(BucketAssertion::Contents { bucket, .. }) ==> old(self).bucket_live(bucket)),
+                // a next-call assertion arms the "next instruction must be an invocation" requirement
+                ret is Continue ==> final(self).next_instruction_requirement ==
+                    (if old(self).validation_ruleset.validate_resource_assertions && assertion is NextCall {
+                        NextInstructionRequirement::RequiredInvocationDueToNextCallAssertion
+                    } else { old(self).next_instruction_requirement }),
+        @*/
+
+        /*@fn radix-transactions/src/manifest/static_manifest_interpreter.rs :: impl<'a, M: ReadableManifest + ?Sized> StaticManifestInterpreter<'a, M> :: fn handle_verification
+        @sig
+            ensures
+                *final(self) == *old(self),
+                ret is Continue ==> old(self).manifest.subintent(),
+        @*/
+
+        #[verifier::exec_allows_no_decreases_clause]
+        /*@fn radix-transactions/src/manifest/static_manifest_interpreter.rs :: impl<'a, M: ReadableManifest + ?Sized> StaticManifestInterpreter<'a, M> :: fn handle_invocation
+        @sig
+            requires old(self).wf(),
+            ensures
+                // passing ids to an invocation only consumes: nothing is created, nothing comes back to life
+                old(self).same_config(final(self)), old(self).same_lengths(final(self)),
+                old(self).same_named_addresses(final(self)), old(self).same_intents(final(self)),
+                old(self).no_resurrection(final(self)),
+                ret is Continue ==> final(self).wf(),
+        @loop 1
+            invariant
+                self.wf(),
+                old(self).same_config(self), old(self).same_lengths(self),
+                old(self).same_named_addresses(self), old(self).same_intents(self),
+                old(self).no_resurrection(self),
+        @before <<let event = traverser.next_event()>> #1
+            let ghost pre = *self;
+        @after <<self.get_existing_named_address::<V>(named_address)>> #1
+            proof { lemma_no_resurrection_frame(old(self), &pre, self); }
+        @after <<self.consume_bucket(>> #1
+            proof { lemma_no_resurrection_trans(old(self), &pre, self); }
+        @after <<self.consume_proof(>> #1
+            proof { lemma_no_resurrection_trans(old(self), &pre, self); }
+        @after <<self.consume_address_reservation(>> #1
+            proof { lemma_no_resurrection_trans(old(self), &pre, self); }
+        @*/
+
         // ---------------------------------------------------------------- end of the manifest
         /// bucket `i` is the first one (in creation order) that is still live
         pub open spec fn first_live_bucket(&self, i: int) -> bool {
@@ -917,20 +1102,34 @@ pub mod unit {
                     &&& !guard ==> *final(visitor) == *old(visitor) && (ret matches ControlFlow::Break(o) && (
                             if pending { is_err::<V>(o, ManifestValidationError::ManifestEndedWhilstExpectingNextCallAssertion) }
                             else if !old(self).no_live_bucket() {
-                                exists|i: int| old(self).first_live_bucket(i) && #[trigger] is_err_dangling_bucket::<V>(o, ManifestBucket(i as u32))
+                                exists|i: int| #[trigger] old(self).first_live_bucket(i) && is_err_dangling_bucket::<V>(o, ManifestBucket(i as u32))
                             } else {
-                                exists|i: int| old(self).first_live_reservation(i) && #[trigger] is_err_dangling_reservation::<V>(o, ManifestAddressReservation(i as u32))
+                                exists|i: int| #[trigger] old(self).first_live_reservation(i) && is_err_dangling_reservation::<V>(o, ManifestAddressReservation(i as u32))
                             }))
                 }),
         @loop 1 iter it
             invariant
                 *self == *old(self), *visitor == *old(visitor),
+                self.bucket_state@.len() <= u32::MAX,
+                self.next_instruction_requirement is None, self.validation_ruleset.validate_no_dangling_nodes,
                 forall|j: int| 0 <= j < it.index@ ==> self.bucket_state@[j].consumed_at is Some,
         @loop 2 iter it
             invariant
                 *self == *old(self), *visitor == *old(visitor),
+                self.address_reservation_state@.len() <= u32::MAX,
+                self.next_instruction_requirement is None, self.validation_ruleset.validate_no_dangling_nodes,
                 forall|j: int| 0 <= j < self.bucket_state@.len() ==> self.bucket_state@[j].consumed_at is Some,
                 forall|j: int| 0 <= j < it.index@ ==> self.address_reservation_state@[j].consumed_at is Some,
+        @before <<ManifestValidationError::DanglingBucket(>> #1
+            proof {
+                assert(old(self).first_live_bucket(index as int));
+                assert(old(self).bucket_live(ManifestBucket(index as u32)));
+            }
+        @before <<ManifestValidationError::DanglingAddressReservation(>> #1
+            proof {
+                assert(old(self).first_live_reservation(index as int));
+                assert(old(self).reservation_live(ManifestAddressReservation(index as u32)));
+            }
         @*/
     }
 
@@ -959,6 +1158,13 @@ pub mod unit {
         fn on_new_intent(&mut self, details: OnNewIntent) -> (r: ControlFlow<ManifestValidationError>) { ControlFlow::Continue(()) }
         open spec fn answer_finish(&self) -> ControlFlow<ManifestValidationError> { ControlFlow::Continue(()) }
         fn on_finish(&mut self, details: OnFinish) -> (r: ControlFlow<ManifestValidationError>) { ControlFlow::Continue(()) }
+        fn on_start_instruction(&mut self, details: OnStartInstruction) -> ControlFlow<ManifestValidationError> { ControlFlow::Continue(()) }
+        fn on_end_instruction(&mut self, details: OnEndInstruction) -> ControlFlow<ManifestValidationError> { ControlFlow::Continue(()) }
+        fn on_drop_authzone_proofs(&mut self, details: OnDropAuthZoneProofs) -> ControlFlow<ManifestValidationError> { ControlFlow::Continue(()) }
+        fn on_pass_expression(&mut self, details: OnPassExpression) -> ControlFlow<ManifestValidationError> { ControlFlow::Continue(()) }
+        fn on_pass_blob(&mut self, details: OnPassBlob) -> ControlFlow<ManifestValidationError> { ControlFlow::Continue(()) }
+        fn on_resource_assertion(&mut self, details: OnResourceAssertion) -> ControlFlow<ManifestValidationError> { ControlFlow::Continue(()) }
+        fn on_verification(&mut self, details: OnVerification) -> ControlFlow<ManifestValidationError> { ControlFlow::Continue(()) }
     }
 
     /// "nothing is consumed twice", "a bucket with a live proof cannot be consumed" and the reviewer's case
